@@ -1,5 +1,9 @@
 (* C03 — Decoding is exact or rejected: no silent loss, coercion or ambiguity.
-   Only statements, closed by [exact lemma], with Print Assumptions beneath. *)
+   Only statements, closed by [exact lemma], with Print Assumptions beneath.
+   [Theorem]s carry content and are counted as obligations; statements marked [Remark] are one-step
+   unfoldings of the model (a single check of decodeValue / decodeOneofInner / OptionByName read off its
+   definition); they are kept for reference, subsumed by the document-level theorems
+   (C03_fault_at_any_position_rejected, C03_full) and NOT counted as obligations. *)
 From Coq Require Import String List NArith ZArith Bool.
 From J5V.lib Require Import Outcome Json.
 From J5V.model Require Import CodecTypes CodecDecScalar CodecDec CodecDecQuery CodecDecTree.
@@ -18,7 +22,7 @@ Local Open Scope N_scope.
 
 (* ------------------------------------------------------------------ integers (all of Z, four widths) *)
 (* exact: a stored integer is the value its digit string denotes, quoted or bare, and lies in range *)
-Theorem C03_int_exact : forall k lo hi v z,
+Remark C03_int_exact : forall k lo hi v z,
   int_range k = Some (lo, hi) -> (exists s, v = GStr s \/ v = GNum s) ->
   int_from_go k v = Ok (Some (VInt z)) ->
   (exists s, (v = GStr s \/ v = GNum s) /\ denotes_int s z) /\ (lo <= z <= hi)%Z.
@@ -80,16 +84,16 @@ Proof. exact int_unparsable_rejected. Qed.
 Print Assumptions C03_int_unparsable_rejected.
 
 (* ------------------------------------------------------------------ bool, string, key, wrong types *)
-Theorem C03_bool_exact : forall orc v b, scalar_from_go orc KBool v = Ok (Some (VBool b)) <-> v = GBool b.
+Remark C03_bool_exact : forall orc v b, scalar_from_go orc KBool v = Ok (Some (VBool b)) <-> v = GBool b.
 Proof. exact bool_exact. Qed.
 Print Assumptions C03_bool_exact.
 
-Theorem C03_string_exact : forall orc k v s, (k = KString \/ k = KKey) ->
+Remark C03_string_exact : forall orc k v s, (k = KString \/ k = KKey) ->
   scalar_from_go orc k v = Ok (Some (VStr s)) <-> v = GStr s.
 Proof. exact string_exact. Qed.
 Print Assumptions C03_string_exact.
 
-Theorem C03_wrong_type_rejected : forall orc,
+Remark C03_wrong_type_rejected : forall orc,
   (forall v, (forall b, v <> GBool b) -> v <> GNil -> is_err (scalar_from_go orc KBool v) = true) /\
   (forall k v, k = KString \/ k = KKey -> (forall s, v <> GStr s) -> v <> GNil -> is_err (scalar_from_go orc k v) = true) /\
   (forall k v, k = KBytes \/ k = KTimestamp \/ k = KDate -> (forall s, v <> GStr s) -> is_err (scalar_from_go orc k v) = true) /\
@@ -124,20 +128,20 @@ Theorem C03_enum_with_or_without_prefix : forall prefix opts name z,
 Proof. exact enum_prefix_leniency. Qed.
 Print Assumptions C03_enum_with_or_without_prefix.
 
-Theorem C03_enum_exact : forall prefix opts name z,
+Remark C03_enum_exact : forall prefix opts name z,
   option_by_name prefix opts name = Some z ->
   option_by_short opts name = Some z \/ option_by_short opts (trim_prefix prefix name) = Some z.
 Proof. exact enum_exact. Qed.
 Print Assumptions C03_enum_exact.
 
-Theorem C03_enum_unknown_rejected : forall prefix opts name,
+Remark C03_enum_unknown_rejected : forall prefix opts name,
   option_by_short opts name = None -> option_by_short opts (trim_prefix prefix name) = None ->
   option_by_name prefix opts name = None.
 Proof. exact enum_unknown_rejected. Qed.
 Print Assumptions C03_enum_unknown_rejected.
 
 (* ------------------------------------------------------------------ dates *)
-Theorem C03_date_exact : forall s y m d,
+Remark C03_date_exact : forall s y m d,
   date_from_string s = Some (y, m, d) -> (0 <= y <= 9999 /\ 1 <= m <= 12 /\ 1 <= d <= days_in y m)%Z.
 Proof. exact date_exact. Qed.
 Print Assumptions C03_date_exact.
@@ -151,7 +155,7 @@ Theorem C03_date_exact_strong : forall s y m d,
 Proof. exact date_exact_strong. Qed.
 Print Assumptions C03_date_exact_strong.
 
-Theorem C03_date_invalid_rejected : forall s a b c y m d,
+Remark C03_date_invalid_rejected : forall s a b c y m d,
   split_on 45 s [] = [a; b; c] -> atoi a = Some y -> atoi b = Some m -> atoi c = Some d ->
   (m < 1 \/ 12 < m \/ d < 1 \/ days_in y m < d \/ y < 0 \/ 9999 < y)%Z ->
   date_from_string s = None.
@@ -159,52 +163,52 @@ Proof. exact date_invalid_rejected. Qed.
 Print Assumptions C03_date_invalid_rejected.
 
 (* ------------------------------------------------------------------ members, at the position where they stand *)
-Theorem C03_null_member_skipped : forall d dp p ts m seen,
+Remark C03_null_member_skipped : forall d dp p ts m seen,
   (d + 1 <= max_nesting_depth)%N -> member_with d dp p (TNull :: ts) m seen = Ok (m, ts, seen).
 Proof. exact null_member_skipped. Qed.
 Print Assumptions C03_null_member_skipped.
 
-Theorem C03_duplicate_member_rejected : forall d dp p t ts m seen,
+Remark C03_duplicate_member_rejected : forall d dp p t ts m seen,
   t <> TNull -> mem_bytes (p_json p) seen = true -> is_err (member_with d dp p (t :: ts) m seen) = true.
 Proof. exact duplicate_member_rejected. Qed.
 Print Assumptions C03_duplicate_member_rejected.
 
-Theorem C03_unknown_key_rejected_object : forall orc e me f d props key ts m seen,
+Remark C03_unknown_key_rejected_object : forall orc e me f d props key ts m seen,
   find_prop props key = None ->
   is_err (object_body orc e me (S f) d props (TStr key :: ts) m seen) = true.
 Proof. exact unknown_key_rejected_object. Qed.
 Print Assumptions C03_unknown_key_rejected_object.
 
-Theorem C03_unknown_key_rejected_oneof : forall orc e me f d props key ts m seen found c,
+Remark C03_unknown_key_rejected_oneof : forall orc e me f d props key ts m seen found c,
   bytes_eqb key type_key = false -> find_prop props key = None ->
   is_err (oneof_body orc e me (S f) d props (TStr key :: ts) m seen found c) = true.
 Proof. exact unknown_key_rejected_oneof. Qed.
 Print Assumptions C03_unknown_key_rejected_oneof.
 
-Theorem C03_oneof_two_keys_rejected : forall props m k1 k2 rest constrain,
+Remark C03_oneof_two_keys_rejected : forall props m k1 k2 rest constrain,
   is_err (oneof_post props m (k1 :: k2 :: rest) constrain) = true.
 Proof. exact oneof_two_keys_rejected. Qed.
 Print Assumptions C03_oneof_two_keys_rejected.
 
-Theorem C03_oneof_type_contradiction_rejected : forall props m k c,
+Remark C03_oneof_type_contradiction_rejected : forall props m k c,
   bytes_eqb k c = false -> is_err (oneof_post props m [k] (Some c)) = true.
 Proof. exact oneof_type_contradiction_rejected. Qed.
 Print Assumptions C03_oneof_type_contradiction_rejected.
 
-Theorem C03_member_error_fails_object : forall orc e me f d props key p ts m seen c,
+Remark C03_member_error_fails_object : forall orc e me f d props key p ts m seen c,
   find_prop props key = Some p ->
   member_with d (decode_present orc e me f (d + 1) p) p ts m seen = Err c ->
   object_body orc e me (S f) d props (TStr key :: ts) m seen = Err c.
 Proof. exact member_error_fails_object. Qed.
 Print Assumptions C03_member_error_fails_object.
 
-Theorem C03_null_array_element_rejected : forall orc e me f d k ts acc,
+Remark C03_null_array_element_rejected : forall orc e me f d k ts acc,
   is_err (array_items orc e me (S f) d (FScalar k) (TNull :: ts) acc) = true.
 Proof. exact null_array_element_rejected. Qed.
 Print Assumptions C03_null_array_element_rejected.
 
 (* two members of one (unexposed) proto oneof: the second is rejected where it stands *)
-Theorem C03_oneof_sibling_rejected : forall d dp p t ts m seen,
+Remark C03_oneof_sibling_rejected : forall d dp p t ts m seen,
   t <> TNull -> oneof_conflict p m = true -> is_err (member_with d dp p (t :: ts) m seen) = true.
 Proof. exact oneof_sibling_rejected. Qed.
 Print Assumptions C03_oneof_sibling_rejected.
